@@ -670,6 +670,38 @@ example : (runPlan okOps twoRun nocap [4, 3] [1, 2]).outcome = .ok [13, 14] :=
     (by intro d hd; simp at hd; subst hd; rfl) (by decide) twoFailing_planOK34 twoFailing_planOK43
     (by decide)
 
+/-! ### The same joint witness with an in-place table and an owned `x`
+
+Operators 3 and 4 may both run in place on position 0 and `x` is passed as an owned value: under
+the order `[3,4]` operator 4 takes `x` in place (operator 3 cannot: `x` still has a use), under
+`[4,3]` it is operator 3 — different in-place decisions, same outputs. -/
+
+def ipOps : Ops Nat := sumOps (fun i => if i = 3 ∨ i = 4 then [0] else [])
+
+theorem ipOps_contract : Contract ipOps twoFailing :=
+  sumOps_contract _ _ _ (fun i => by split <;> simp) (fun _ _ => rfl)
+
+def twoRunOwned : Run Nat :=
+  { g := twoFailing, consts := fun _ => 0
+    borrowed := fun _ => none, owned := fun v => if v = 0 then some 10 else none }
+
+theorem twoRunOwned_wf : WF twoRunOwned := by
+  refine ⟨rfl, fun v _ => rfl, ?_, twoRun_wf.outsValue⟩
+  intro v hv
+  by_cases h : v = 0
+  · subst h; rfl
+  · simp [twoRunOwned, h] at hv
+
+example : ((runPlan ipOps twoRunOwned nocap [3, 4] [1, 2]).steps.map (fun t => (t.op, t.rip))) =
+      [(3, false), (4, true)] ∧
+    ((runPlan ipOps twoRunOwned nocap [4, 3] [1, 2]).steps.map (fun t => (t.op, t.rip))) =
+      [(4, false), (3, true)] := by decide
+
+example : (runPlan ipOps twoRunOwned nocap [4, 3] [1, 2]).outcome = .ok [13, 14] :=
+  c02_plan_independent (ins := [0]) twoRunOwned_wf rfl ipOps_contract twoFailing_unique
+    (by intro d hd; simp at hd; subst hd; rfl) (by decide) twoFailing_planOK34 twoFailing_planOK43
+    (by decide)
+
 /-! Without single assignment the naive result (and the executor's) does depend on the order: -/
 
 /-- `0:x 1:y 2:z  3: y = A(x)  4: y = B(x)  5: z = R(y)`: two producers of `y`. -/
